@@ -372,6 +372,22 @@ def rule_fill(fx, rep):
                 full = any(isinstance(x, tuple) and x and x[0] == "constpath" and str(x[1]).endswith("Bitboard::FULL") for x in walk(sq))
                 verdict = bool(occ) and same_sq and full
                 why = f"subsets of `{show(subs[0][2][0])[:80]}` for square `{show(sq)[:60]}`"
+                # ... taken from the subset iterator as it is: no adaptor (filter, take, skip, step_by ..) between SubsetsOf::new and
+                # the `next` that yields the blocker set
+                cur = deep_strip(nxt[0][2][0]) if nxt[0][2] else None
+                adaptors = []
+                for _ in range(8):
+                    if not (isinstance(cur, tuple) and cur and cur[0] == "call"):
+                        break
+                    if str(cur[1]).endswith("SubsetsOf::new"):
+                        break
+                    last = str(cur[1]).split("::")[-1]
+                    if last not in ("into_iter", "deref", "deref_mut", "by_ref", "borrow_mut"):
+                        adaptors.append(last)
+                    cur = deep_strip(cur[2][0]) if cur[2] else None
+                if verdict and adaptors:
+                    verdict = False
+                    why = f"the subset iterator is passed through `{adaptors[0]}` before the store: some subsets get no entry"
         elif len(ds) > 1:
             # inlined walk: definitions of the subset variable that do not depend on it (the start) vs those that do (the step)
             def depends_on_self(d):
@@ -701,6 +717,8 @@ def rule_magic(fx, rep):
 MG = "src/chess/movegen/tables/magics.rs"
 BB = "src/chess/bitboard.rs"
 MUTANTS = [
+    {"name": "rook filler skips subsets with more than ten blockers (seed C07-6a)", "expect": "C07-FILL/rook",
+     "edits": [("src/chess/movegen/tables/magics.rs", "        let occupancy_subsets = SubsetsOf::new(occupancies);\n\n        for blockers in occupancy_subsets {\n            let idx = table_index_rook(s, blockers);", "        let occupancy_subsets = SubsetsOf::new(occupancies).filter(|blockers| blockers.count() <= 10);\n\n        for blockers in occupancy_subsets {\n            let idx = table_index_rook(s, blockers);")]},
     {"name": "pawn attack generator by index arithmetic with an off-by-one board bound (seed C07-5b)", "expect": "C07-LEAPGEN/pawn/White",
      "edits": [("src/chess/movegen/tables/attacks.rs", "    let mut attacks = Bitboard::EMPTY;\n    let sq = square.bb();\n\n    attacks |= sq.forward(player).west();\n    attacks |= sq.forward(player).east();\n\n    attacks\n}",
                 "    let idx = square.idx();\n    let file = idx % 8;\n    let mut attacks = 0;\n    match player {\n        Player::White => {\n            if file > 0 && idx + 7 < 63 {\n                attacks |= 1 << (idx + 7);\n            }\n            if file < 7 && idx + 9 < 63 {\n                attacks |= 1 << (idx + 9);\n            }\n        }\n        Player::Black => {\n            if file > 0 && idx >= 9 {\n                attacks |= 1 << (idx - 9);\n            }\n            if file < 7 && idx >= 7 {\n                attacks |= 1 << (idx - 7);\n            }\n        }\n    }\n    Bitboard::new(attacks)\n}")]},
